@@ -569,6 +569,16 @@ class FnAnalysis:
         if ("false", t) in facts:
             return False
         if t.op == "bin" and t.args[0] in ("Eq", "Ne"):
+            # x == 0  <=>  x < 1 for an unsigned x (a slice pattern `[_, ..]` tests the length that way)
+            a0, b0 = t.args[1], t.args[2]
+            if a0.op == "const":
+                a0, b0 = b0, a0
+            if b0.op == "const" and b0.args[1] == 0 and b0.args[0] in INT_BITS and b0.args[0] not in ("i8", "i16", "i32", "i64", "i128", "isize"):
+                lt1 = Term("bin", "Lt", a0, T.const(b0.args[0], 1), b0.args[0])
+                if ("true", lt1) in facts:
+                    return t.args[0] == "Eq"
+                if ("false", lt1) in facts:
+                    return t.args[0] == "Ne"
             dv = self._discr_cmp(t)
             if dv is not None:
                 base, names, k = dv
@@ -1201,6 +1211,11 @@ class FnAnalysis:
                 if bool(g[1].args[1]) != (g[0] == "true"):
                     return None
                 continue
+            elif g[0] in ("true", "false") and g != f:
+                tmp = set()
+                self._assume(tmp, g[1], g[0] == "true")       # the condition is now concrete: derive what it implies (x != 0, variant facts, ...)
+                out |= tmp
+                continue
             out.add(g)
         # pairwise contradictions among var facts
         seen = {}
@@ -1540,6 +1555,10 @@ class Program:
                         r = self.apply_fn(an, st, f, list(cargs[1].args[4]))
                 elif (a[0].startswith("option::Option::") or a[0].startswith("result::Result::")) and any(x.op in ("agg", "fnptr") for x in cargs[1:]):
                     r = self._combinator(an, st, a[0], cargs)
+                elif a[0] in ("convert::Into::into", "convert::From::from") and len(a[1]) >= 2 and a[1][0] in INT_BITS and a[1][1] in INT_BITS and len(cargs) == 1:
+                    # the conversion's types have become concrete integers: it is the widening cast (or the identity)
+                    to, frm = (a[1][0], a[1][1]) if a[0].endswith("from") else (a[1][1], a[1][0])
+                    r = cargs[0] if to == frm else T.cast("IntToInt", cargs[0], frm, to)
                 elif a[1] and isinstance(a[1][0], str):
                     # a method of an in-crate trait called on `Self` / a type parameter that is now a concrete type: use that type's impl
                     imp = self.trait_impl(a[0], a[1][0])
@@ -1779,6 +1798,8 @@ class Program:
                 return self._apply_local(an, st, lf, list(argvals), effects)
             # tuple-variant / tuple-struct constructor used as a function
             owner, _, vn = q.rpartition("::")
+            if F.adts.get(owner) is None and owner.endswith("::" + vn):
+                owner = owner[: -len("::" + vn)]      # the constructor's own path repeats the variant name
             ad = F.adts.get(owner)
             if ad is not None:
                 for i, v in enumerate(ad["variants"]):
@@ -1881,8 +1902,10 @@ class Program:
             self._hints["trait_impls"] = idx
         import re as _re
         imp = idx.get((method_qual, _re.sub(r"<.*$", "", norm(self_ty))))
-        if imp is None or self.known_name(imp):
+        if imp is None:
             return None
+        if self.known_name(imp):
+            return None       # a named method keeps its name (the rules' expected forms are written with it)
         return imp
 
     def from_impl(self, dst, src):
